@@ -12,3 +12,28 @@ def add_decimal(u, consts=True, new_raw=False):
             members[c] = None
     if members:
         u.inherent('fpdec', 'impl Decimal', members)
+
+
+def add_accessors(u):
+    u.inherent('fpdec', 'impl Decimal', {
+        'coefficient': C(post=[('coefficient', 'r == self.coeff')]),
+        'n_frac_digits': C(post=[('n_frac_digits', 'r == self.n_frac_digits')]),
+    })
+
+
+def predicate_contracts():
+    return {
+        'eq_zero': C(post=[('C15.eq_zero', 'r <==> self.coeff == 0')]),
+        'eq_one': C(pre=['self.n_frac_digits <= 38'],
+                    post=[('C15.eq_one', 'r <==> self.coeff == pow10(self.n_frac_digits as nat)')]),
+        'is_negative': C(post=[('C15.is_negative', 'r <==> self.coeff < 0')]),
+        'is_positive': C(post=[('C15.is_positive', 'r <==> self.coeff > 0')]),
+    }
+
+
+def add_predicates(u, verify=False):
+    cs = predicate_contracts()
+    if not verify:
+        for c in cs.values():
+            c.stub = True
+    u.inherent('fpdec', 'binops::cmp::impl Decimal', cs)
